@@ -72,6 +72,9 @@ CASES = [
  ("C13", "pipeline/builder.py", "                    c_cfg.inputs = dict(sorted(edges.get(name, {}).items(), key=lambda kv: kv[0]))", "                    c_cfg.inputs = edges.get(name, {})", "break"),
  ("C13", "pipeline/builder.py", "        cfg.aliases = {a: t.name for (a, t) in sorted(self._aliases.items(), key=lambda kv: kv[0])}", "        cfg.aliases = {a: t.name for (a, t) in self._aliases.items()}", "break"),
  ("C13", "pipeline/builder.py", "        cfg.aliases = {a: t.name for (a, t) in sorted(self._aliases.items(), key=lambda kv: kv[0])}", "        cfg.aliases = {a: t.name for (a, t) in sorted(self._aliases.items())}", "keep"),
+ ("C13", "pipeline/builder.py", "        cfg.literals = dict(sorted(cfg.literals.items(), key=lambda kv: kv[0]))", "        cfg.literals = dict(cfg.literals.items())", "break"),
+ ("C13", "pipeline/builder.py", "        cfg.literals = dict(sorted(cfg.literals.items(), key=lambda kv: kv[0]))", "        cfg.literals = dict(sorted(cfg.literals.items(), key=lambda kv: repr(kv[1])))", "break"),
+ ("C13", "pipeline/builder.py", "        cfg.literals = dict(sorted(cfg.literals.items(), key=lambda kv: kv[0]))", "        cfg.literals = dict(sorted(cfg.literals.items(), key=lambda it: it[0]))", "keep"),
  ("C14", "pipeline/builder.py", "            builder._edges[name] = dict(spec.inputs)", "            builder._edges[name] = spec.inputs", "break"),
  ("C14", "pipeline/builder.py", "        edges = deepcopy(self._edges)", "        edges = dict(self._edges)", "break"),
  ("C14", "pipeline/builder.py", "        edges = deepcopy(self._edges)", "        edges = {n: dict(w) for (n, w) in self._edges.items()}", "keep"),
